@@ -61,7 +61,7 @@ def programs(tier: str) -> tuple[list[dict], list[dict]]:
         bs, st = dp.generate("var", MaxRanks=2, MaxOps=1, Variants=True)
         stats.append(st)
         progs += dp.progs_from(bs)
-        for lab, minops, num in (("sim2", 2, 2500), ("sim4", 4, 2500)):
+        for lab, minops, num in (("sim2", 2, 1500), ("sim4", 4, 1500)):
             bs, st = dp.generate(lab, simulate=num, MaxRanks=4, MaxOps=6, NTags=3,
                                  Variants=True, MinOps=minops, Exhaustive=False, timeout=1500)
             stats.append(st)
@@ -268,6 +268,7 @@ def main(tier: str, only: list[dict] | None = None) -> int:
         "abstract_partitions_of_the_spec_checked": len(ainsts),
         "real_partition_has_same_parts_per_rank_as_abstract": same_parts,
         "tlc_wall_s": round(pv.wall + mc["wall"], 1),
+        "tlc_distpartition_wall_s": round(pv.wall, 1), "tlc_distexec_wall_s": round(mc["wall"], 1),
     })
     for p in progs[:1] + progs[len(progs) // 2:len(progs) // 2 + 1]:
         run.sample({"program": {k: p[k] for k in ("id", "nranks", "tagkind", "ranks")}})
